@@ -40,7 +40,11 @@ type frontEnd struct {
 
 var frontEnds = []frontEnd{
 	{"oj.Parser.Parse", false, func(d []byte, c gx.Chunking) error { p := oj.Parser{}; _, err := p.Parse(d); return err }},
-	{"oj.Parser.ParseReader", true, func(d []byte, c gx.Chunking) error { p := oj.Parser{}; _, err := p.ParseReader(c.Reader(d)); return err }},
+	{"oj.Parser.ParseReader", true, func(d []byte, c gx.Chunking) error {
+		p := oj.Parser{}
+		_, err := p.ParseReader(c.Reader(d))
+		return err
+	}},
 	{"oj.Validator.Validate", false, func(d []byte, c gx.Chunking) error { v := oj.Validator{OnlyOne: true}; return v.Validate(d) }},
 	{"oj.Validator.ValidateReader", true, func(d []byte, c gx.Chunking) error {
 		v := oj.Validator{OnlyOne: true}
@@ -57,7 +61,11 @@ var frontEnds = []frontEnd{
 		return t.Load(c.Reader(d), &oj.ZeroHandler{})
 	}},
 	{"gen.Parser.Parse", false, func(d []byte, c gx.Chunking) error { p := gen.Parser{}; _, err := p.Parse(d); return err }},
-	{"gen.Parser.ParseReader", true, func(d []byte, c gx.Chunking) error { p := gen.Parser{}; _, err := p.ParseReader(c.Reader(d)); return err }},
+	{"gen.Parser.ParseReader", true, func(d []byte, c gx.Chunking) error {
+		p := gen.Parser{}
+		_, err := p.ParseReader(c.Reader(d))
+		return err
+	}},
 }
 
 func position(err error) (line, col int, ok bool) {
